@@ -154,6 +154,7 @@ func runJpgo(c *IOCase) (res ioResult) {
 	simio.W = w
 	shimos.Args = w.Args
 	shimflag.Reset()
+	jpgomain.VerifReset() // package-level variables as in a freshly started process
 	zzverifrt.MapOrder = nil
 	res.world = w
 	res.exit = -1
